@@ -157,7 +157,7 @@ Definition decode_cost (buf : bytes) : cres iresp * cost :=
   cbind (parse_resp_c MAX_ARRAY_NESTING buf) (fun v consumed =>
     if (length buf <? consumed)%nat then (CPanic, czero) else (COk v consumed, mkCost SHARED_SIZE 1 0)).
 
-(* ---------- EVAL / EVALSHA key collection (proxy/executor.rs, with fix_C16_3.diff) ----------
+(* ---------- EVAL key collection (proxy/executor.rs handle_eval_cmd; EVALSHA takes the single-key path) ----------
    args = the elements of the command (None for an element that is not a bulk string). *)
 Inductive eval_res :=
 | EvMissingNumkeys
